@@ -92,12 +92,15 @@ static CO_ERR COTPdoEventWrite(struct CO_OBJ_T *obj, struct CO_NODE_T *node, voi
         if (tid < 0) {
             return (CO_ERR_TYPE_WR);
         }
+        pdo->EvTmr = -1;
     }
     if (pdo->InTmr >= 0) {
         tid = COTmrDelete(tmr, pdo->InTmr);
         if (tid < 0) {
             return (CO_ERR_TYPE_WR);
         }
+        pdo->InTmr  = -1;
+        pdo->Flags &= ~CO_TPDO_FLG__I_;
     }
 
     /* start new timer for event when TPDO COB-ID is enabled */
